@@ -64,7 +64,7 @@ MODEL = dict(
         _nonvacuous("pad"),       # encoder emits '=' padding
     ],
     quick=dict(sample=2500, drive_runs=64, drive_len=100),
-    thorough=dict(sample=None, drive_runs=1600, drive_len=100),
+    thorough=dict(sample=None, drive_runs=800, drive_len=100),
     need=[("webauthn", "ok"), ("webauthn", "fail"), ("ed25519", "ok"), ("ed25519", "fail"), ("b64", "ok")],
     need_cnt=["C18_cls_" + c for c in _CLASSES],
     selftest_drive=(6, 100),
